@@ -629,6 +629,31 @@ def check_case(case):
             if cls.__name__ != case['name']:
                 return f"{case['table']}[{case['name']!r}] is class {cls.__name__}"
             return None
+        if kind == 'expand-direct':
+            # the expansion function called directly, several times in ONE process (as count_runs, get_runs,
+            # generate-input and user scripts do): each call must return exactly the product of ITS argument
+            for i, rj in enumerate(case['ranges_json']):
+                r = json.loads(rj)
+                runs = bs.expand_input_ranges(copy.deepcopy(r))
+                dflt = decoder_defaults(r['decoder']['name'])
+                def as_tuple(u):
+                    try:
+                        return repr((('code',) + expected_code(u['code']['name'], u['code']['parameters']),
+                                     ('noise',) + expected_noise(u['error_model']['name'],
+                                                                 u['error_model']['parameters']),
+                                     ('decoder', u['decoder']['name'],
+                                      tuple(sorted({**dflt, **u['decoder'].get('parameters', {})}.items()))),
+                                     u['error_rate']))
+                    except Exception:  # noqa: BLE001 -- a run that is not of this request at all
+                        return 'foreign run ' + json.dumps(u, sort_keys=True, default=str)[:160]
+                got = [as_tuple(u) for u in runs]
+                exp = expected_tuples({k: v for k, v in r.items() if k != 'method'})
+                if Counter(got) != Counter(exp):
+                    extra = list((Counter(got) - Counter(exp)).elements())
+                    missing = list((Counter(exp) - Counter(got)).elements())
+                    return (f'call #{i + 1} of expand_input_ranges in this process returned {len(got)} runs for '
+                            f'{len(exp)} requested combinations; not requested: {extra[:2]}; missing: {missing[:2]}')
+            return None
         tmp = tempfile.mkdtemp(prefix='c13o_')
         out = os.path.join(tmp, 'o.json')
         spec = json.loads(case['spec_json'])      # a string: key order is part of the input
@@ -736,6 +761,9 @@ def oracle_cases(ctx, deep):
         cases.append({'kind': 'resume', 'spec': {'ranges': gen_ranges(rng, max_product=12, runnable=True)}})
     for _ in range(6 if deep else 2):
         cases.append({'kind': 'expansion', 'spec': {'ranges': gen_splitting_ranges(rng)}})
+    for _ in range(6 if deep else 2):
+        cases.append({'kind': 'expand-direct',
+                      'ranges_json': [json.dumps(gen_ranges(rng, max_product=12)) for _ in range(3)]})
     for _ in range(10 if deep else 4):
         cases.append({'kind': 'runs', 'spec': {'runs': [gen_run(rng) for _ in range(int(rng.integers(1, 6)))]}})
     # pairs a decoder handles but does not LIST in its (GUI-menu) allowed_codes: the expansion must keep them
@@ -782,6 +810,8 @@ def oracle(ctx, deep=False, broken=None):
     def key(c):
         if c['kind'] == 'registry':
             return {'kind': 'registry', 'table': c['table'], 'name': c['name']}
+        if c['kind'] == 'expand-direct':
+            return {'kind': 'expand-direct'}
         sp = json.loads(c['spec_json'])
         r = sp['ranges'] if 'ranges' in sp else sp['runs']
         r0 = r[0] if isinstance(r, list) else r
